@@ -1295,3 +1295,22 @@ package sio
 //@     requires enc == 1 && !encerr && arg0 == frames && sent == 0 [C01.emit.frames.unchanged]
 //@     update sent = sent + 1
 //@   ensures sent <= 1 && (enc == 1 && !encerr ==> sent == 1) [C01.emit.once]
+
+// C16: collections guarded by a mutex are handed out as COPIES (the caller iterates them without the lock; handing
+// out the guarded slice itself would be a data race with the next writer).
+//@ func (*clientSocketStore).getAll
+//@   opt safety off
+//@   modifies *
+//@   ensures len(sockets) == 0 || fresh(sockets) [C16.copy.clientSocketStore.getAll]
+//@ func (*serverSocketStore).getAll
+//@   opt safety off
+//@   modifies *
+//@   ensures len(sockets) == 0 || fresh(sockets) [C16.copy.serverSocketStore.getAll]
+//@ func (*nspStore).getAll
+//@   opt safety off
+//@   modifies *
+//@   ensures len(nsps) == 0 || fresh(nsps) [C16.copy.nspStore.getAll]
+//@ func (*nspSocketStore).getAll
+//@   opt safety off
+//@   modifies *
+//@   ensures len(result) == 0 || fresh(result) [C16.copy.nspSocketStore.getAll]
